@@ -1036,6 +1036,59 @@ def run_tucker(ctx, n_runs):
             reported_matches(ctx, entry, inputs, out[1][1], objs)
 
 
+def run_tucker_svd(ctx, n_runs):
+    """tucker / partial_tucker with svd= variants on data with a FLAT spectrum (dense noise), tol = 0, many sweeps: the svd= option selects the
+    SVD of the initialisation; the factor blocks inside the sweeps must be solved exactly whatever svd= says (every SVD answer of a sweep
+    attains the Ky Fan optimum: check_hooi_tape; reported and recomputed errors non-increasing over all sweeps)"""
+    import tensorly as tl
+    from tensorly.decomposition import _tucker
+    chk, rng = ctx.chk, ctx.rng
+    for it in range(n_runs):
+        big = it % 2 == 0
+        shape, ranks, sweeps = ((40, 40, 40), [6, 6, 6], 40) if big and it % 4 == 0 else ((16, 15, 14), [4, 4, 3], 30) if big else ((9, 8, 7, 6), [3, 3, 2, 2], 25)
+        svd = ["randomized_svd", "symeig_svd", "randomized_svd", "truncated_svd"][(it // 2) % 4] if it % 2 == 0 else ["randomized_svd", "symeig_svd"][(it // 2) % 2]
+        ds = rng.randrange(2 ** 31 - 1)
+        r = np.random.RandomState(ds)
+        X = r.randn(*shape)                                   # dense noise: flat spectrum, an inexact SVD shows
+        partial = (it % 3 == 2)
+        if partial:
+            modes = sorted(rng.sample(range(len(shape)), 2)); rk = [ranks[m] for m in modes]
+            fn, entry = _tucker.partial_tucker, "tensorly.decomposition.partial_tucker"
+            kw = dict(rank=rk, modes=list(modes), tol=0, init="svd", svd=svd, random_state=r.randint(1 << 30))
+        else:
+            modes = list(range(len(shape))); rk = list(ranks)
+            fn, entry = _tucker.tucker, "tensorly.decomposition.tucker"
+            kw = dict(rank=rk, tol=0, init="svd", svd=svd, random_state=r.randint(1 << 30), return_errors=True)
+        inputs = dict(shape=list(shape), rank=rk, variant="svd=" + svd + ("+partial" + str(modes) if partial else ""), options=dict(kw, n_iter_max=sweeps),
+                      tensor=X if X.size <= 4000 else "numpy.random.RandomState(data_seed).randn(*shape)", data_seed=ds)
+        attempt(ctx, entry)
+        with Capture() as cap:
+            out = C.call_impl(fn, X.copy(), n_iter_max=sweeps, **kw)
+        chk.hist("algorithm", ("partial_tucker:" if partial else "tucker:") + "svd=" + svd)
+        if out[0] != "ok":
+            raised(ctx, entry, out[1]); continue
+        errs = out[1][1]
+        history_check(ctx, entry, inputs, errs)
+        check_hooi_tape(ctx, entry, inputs, cap, hooi_only_after=len(modes))
+        (core, facs) = out[1][0]
+        rec = tl.tenalg.multi_mode_dot(np.asarray(core), [np.asarray(f) for f in facs], modes=list(modes))
+        final = float(np.linalg.norm(X - np.asarray(rec))) / float(np.linalg.norm(X))
+        reported_matches(ctx, entry, inputs, [errs[-1]], [final])
+        # objective recomputed from prefix runs (same seed => same trajectory), spread over the run
+        objs, ok = [], True
+        pts = sorted({1, 2, sweeps // 4, sweeps // 2, (3 * sweeps) // 4, sweeps})
+        for nit in pts:
+            o2 = C.call_impl(fn, X.copy(), n_iter_max=nit, **kw)
+            if o2[0] != "ok":
+                ok = False; break
+            (c2, f2), _ = o2[1]
+            rec2 = tl.tenalg.multi_mode_dot(np.asarray(c2), [np.asarray(f) for f in f2], modes=list(modes))
+            objs.append(float(np.linalg.norm(X - np.asarray(rec2))) / float(np.linalg.norm(X)))
+        if ok:
+            history_check(ctx, entry, inputs, objs, what="objective recomputed from prefix runs")
+            reported_matches(ctx, entry, inputs, [errs[p_ - 1] for p_ in pts], objs)
+
+
 def run_parafac2(ctx, n_runs):
     from tensorly.decomposition import _parafac2
     from tensorly.parafac2_tensor import parafac2_to_slices
@@ -1044,17 +1097,24 @@ def run_parafac2(ctx, n_runs):
     for it in range(n_runs):
         r = np_rng(rng)
         I, J, K, rank = rng.choice([3, 4]), rng.choice([4, 5]), rng.choice([3, 4]), rng.choice([1, 2, 2])
-        variant = ["plain", "normalize", "linesearch", "nn", "normalize+linesearch", "nn+linesearch"][it % 6]
+        variant = ["plain", "normalize", "linesearch", "nn", "normalize+linesearch", "nn+linesearch", "nn+linesearch+active", "nn+linesearch+active" if ctx.tier != "quick" else "nn+linesearch"][it % 8]
         nonneg = "nn" in variant
         if "normalize" in variant: rank = 2     # with one component the weights are a common scale: nothing for the absorption to get wrong
         A = (r.rand(I, rank) + 0.3) * (1 if nonneg else r.choice([-1.0, 1.0], size=(I, rank)))
         Bm = r.rand(rank, rank) + np.eye(rank)
         Cm = (r.rand(K, rank) + 0.1) if nonneg else r.randn(K, rank)
+        if "active" in variant:
+            # ACTIVE non-negativity: the non-negative factors A and C of the generating model have about half of their entries exactly zero
+            # (every row / column keeps one entry), dense noise: the ALS iterates sit on the boundary and the extrapolation leaves the orthant
+            I, J, K, rank = 6, 6, 6, 3
+            A = (r.rand(I, rank) + 0.3) * (r.rand(I, rank) < 0.5); A[np.arange(I), r.randint(rank, size=I)] += 0.5
+            Cm = (r.rand(K, rank) + 0.3) * (r.rand(K, rank) < 0.5); Cm[np.arange(K), r.randint(rank, size=K)] += 0.5
+            Bm = r.rand(rank, rank) + np.eye(rank)
         slices = []
         for i in range(I):
             P, _ = np.linalg.qr(r.randn(J, rank))
             S = (P @ Bm) @ np.diag(A[i]) @ Cm.T
-            slices.append(S + (0.35 if "normalize" in variant else rng.choice([0.1, 0.4])) * np.linalg.norm(S) / math.sqrt(S.size) * r.randn(J, K))
+            slices.append(S + (0.35 if "normalize" in variant else 0.3 if "active" in variant else rng.choice([0.1, 0.4])) * np.linalg.norm(S) / math.sqrt(S.size) * r.randn(J, K))
         ls = "linesearch" in variant
         if ls and it % 2 == 0:
             c = 0.05 / math.sqrt(sum(float(np.sum(sl ** 2)) for sl in slices))
@@ -1062,7 +1122,7 @@ def run_parafac2(ctx, n_runs):
         kw = dict(tol=1e-300, init="random", random_state=r.randint(1 << 30), linesearch=ls, return_errors=True)
         if nonneg: kw["nn_modes"] = [0, 2]
         if "normalize" in variant: kw["normalize_factors"] = True
-        nmax = 14 if ls else 7
+        nmax = ((14 if ctx.tier == "quick" else 30) if "active" in variant else 14) if ls else 7
         inputs = dict(shape=[I, J, K], rank=rank, variant=variant, slices=slices, options=kw)
         attempt(ctx, entry)
         with Capture() as cap:
@@ -1076,6 +1136,12 @@ def run_parafac2(ctx, n_runs):
         n2 = math.sqrt(sum(float(np.sum(sl ** 2)) for sl in slices))
         objs, ok = [], True
         prefixes = list(range(1, nmax + 1)) if (ctx.tier != "quick" or it % 2 == 0) else list(range(1, 5))
+        if "active" in variant:      # long runs: the line search starts after sweep 6; a few prefixes spread over the run
+            prefixes = [2, 7, 9, 13, 20, 30] if ctx.tier != "quick" else []
+        # the error reported last belongs to the returned decomposition (no prefix run needed)
+        rec_f = parafac2_to_slices(out[1][0])
+        final = math.sqrt(sum(float(np.sum((np.asarray(a) - np.asarray(b)) ** 2)) for a, b in zip(slices, rec_f))) / n2
+        reported_matches(ctx, entry, inputs, [out[1][1][-1]], [final])
         for nit in prefixes:
             o2 = C.call_impl(_parafac2.parafac2, [s.copy() for s in slices], rank, n_iter_max=nit, timeout=60, **kw)
             if o2[0] != "ok":
@@ -1124,8 +1190,15 @@ def run_p2_linestep(ctx, n_runs):
         # the ALS iterate, slightly above it lands slightly farther (a sloppy acceptance test would let it through)
         step = [0.6, 2.05, 2.15, 2.3, 2.45, 1.5, 2.1, 2.2, 2.6, 4.0][it % 10] / (math.sqrt(iteration) + 1.0)
         cur = [l + step * (t - l) for l, t in zip(last, true)]
+        active = nonneg and it % 4 == 3
+        if active:
+            # ACTIVE non-negativity: about half of the entries of the current A and C are exactly zero while the previous iterate is positive
+            # there, so the extrapolation goes negative and the clipping changes the extrapolated point
+            for m_ in (0, 2):
+                mask = r.rand(*cur[m_].shape) < 0.5
+                cur[m_] = np.where(mask, 0.0, cur[m_])
         weights = np.ones(rank)
-        inputs = dict(shape=[I, J, K], rank=rank, variant="step%.1f" % step, slices=slices, factors=cur, factors_last=last, iteration=iteration, nn=nonneg)
+        inputs = dict(shape=[I, J, K], rank=rank, variant="step%.1f" % step + ("+active" if nonneg and it % 4 == 3 else ""), slices=slices, factors=cur, factors_last=last, iteration=iteration, nn=nonneg)
 
         def objective(factors, projections):
             rec = parafac2_to_slices((weights, [np.asarray(f) for f in factors], [np.asarray(q) for q in projections]))
@@ -1146,6 +1219,9 @@ def run_p2_linestep(ctx, n_runs):
         ctx.judged[entry] = ctx.judged.get(entry, 0) + 1
         chk.count(key=(entry, I, J, K, rank, step, iteration, nonneg), nontrivial=True)
         chk.hist("linestep", "kept ALS iterate" if abs(e_true - e0) <= 1e-12 else "jump accepted")
+        if not abs(e_true - e_rep) <= 1e-9 * (1.0 + abs(e_true)):
+            chk.finding(entry, inputs, f"line search returned a state whose error is {e_true!r} but reported {e_rep!r} for it (the acceptance test did not judge the state it returns)",
+                        "C07_linesearch_descent", observed=[e0, e_true, e_rep], expected="reported error == error of the returned state")
         if not (e_true <= e0 + SLACK and e_rep <= e0 + SLACK):
             chk.finding(entry, inputs, f"line search returned a state with error {e_true!r} (reported {e_rep!r}) above the error {e0!r} of the ALS iterate",
                         "C07_linesearch_descent", observed=[e0, e_true, e_rep], expected="<= error of the ALS iterate")
@@ -1438,7 +1514,7 @@ def static_tie(chk):
 
 def PLAN(quick):
     return [(run_corpus, 0), (run_parafac, 80 if quick else 400), (run_fixed_modes, 12 if quick else 36), (run_nn_hals, 18 if quick else 120), (run_hals_nnls, 36 if quick else 300),
-            (run_tucker, 18 if quick else 120), (run_parafac2, 24 if quick else 72), (run_p2_linestep, 30 if quick else 120), (run_tr_als, 12 if quick else 80),
+            (run_tucker, 18 if quick else 120), (run_tucker_svd, 6 if quick else 24), (run_parafac2, 24 if quick else 72), (run_p2_linestep, 30 if quick else 120), (run_tr_als, 12 if quick else 80),
             (run_cmtf, 12 if quick else 80), (run_regressors, 12 if quick else 60)]
 
 
